@@ -6,7 +6,7 @@ import ast
 from typing import Any
 import copy
 
-from ..astutil import attr_writes
+from ..astutil import attr_writes, call_arg
 from ..cfg import Node, cfg_of, node_calls, walk_own
 from ..closed import find_roles, resolver
 from ..flow import occurred_before
@@ -202,6 +202,16 @@ def run(ctx: Ctx) -> None:
     fc = [c for c in own_nodes(fin.node) if isinstance(c, ast.Call) and dfc in res.callees(fin, c).funcs]
     fp = [p for p in fin.param_names() if p != "self"][0]
     ctx.ob("C06.R1", fin, "finish_connection hands its login flag through", len(fc) == 1 and [norm(a) for a in fc[0].args] == [fp], f"{[norm(a) for c in fc for a in c.args]}")
+    # ... and so does the client on top of it: "when login is requested" is the caller's decision alone
+    cli = ctx.repo.cls("APIClient")
+    cfin = cli.methods["finish_connection"]
+    cconn = cli.methods["connect"]
+    for outer, inner in ((cfin, fin), (cconn, cfin)):
+        lp_ = [p for p in outer.param_names() if p == "login"]
+        calls_ = [c for c in own_nodes(outer.node) if isinstance(c, ast.Call) and inner in res.callees(outer, c).funcs]
+        passed = [res.bind_args(inner, c).get("login") for c in calls_]
+        rebound_ = [n.lineno for n in own_nodes(outer.node) if isinstance(n, ast.Name) and n.id == "login" and isinstance(n.ctx, ast.Store)]
+        ctx.ob("C06.R1", outer, f"APIClient.{outer.name} hands the caller's login flag through unchanged", bool(lp_) and len(calls_) == 1 and isinstance(passed[0], ast.Name) and passed[0].id == "login" and not rebound_, f"passes {[norm(p) if p is not None else None for p in passed]}; login reassigned at lines {rebound_}")
     gf = cfg_of(ctx, fin)
     connected = [n for n in gf.reachable() if any(roles.setter in res.callees(fin, c).funcs for c in node_calls(n))]
     bf = occurred_before(gf, lambda n: ["phase-done"] if any(dfc in res.callees(fin, c).funcs for c in node_calls(n)) else [])
@@ -283,7 +293,7 @@ def run(ctx: Ctx) -> None:
             ok = ok and may == spec and must == spec
         ctx.ob("C06.R2", ph, "name rejected iff announced, expected configured and different", ok, fmt_table(variables, tn))
         be = by_cls["BadNameAPIError"][0].ast.exc
-        second = norm(inline(ph, be.args[1])) if len(be.args) == 2 else None
+        second = norm(inline(ph, call_arg(be, 1, "received_name"))) if call_arg(be, 1, "received_name") is not None else None
         ctx.ob("C06.R3", ph, "bad-name error carries the received name", second in (f"{rp}.name", name_local, f"({name_local} := {rp}.name)"), f"second argument {second}")
     # the version check precedes the name check? not required; but api_version must be stored on success
     stores = [n for n in gp.reachable() if n.kind == "stmt" and isinstance(n.ast, ast.Assign) and any(norm(t) == "self.api_version" for t in n.ast.targets)]
@@ -353,7 +363,7 @@ def live_configuration(ctx: Ctx) -> None:
     bw = binders(conn, "_params")
     ctx.ob("C06.R5", conn.methods["__init__"], "the connection binds its parameter object once, in __init__, to the object it was given", len(bw) == 1 and bw[0][0] is ci and isinstance(bw[0][2], ast.Name) and bw[0][2].id == cparams[0], f"{[(f.qualname, norm(v) if v is not None else None) for f, st, v in bw]}")
     made = [(f, c) for f in ctx.repo.all_funcs() if f.cls is not None and f.cls.key == cli.key for c in own_nodes(f.node) if isinstance(c, ast.Call) and any(g.cls is conn and g.name == "__init__" for g in res.callees(f, c).funcs)]
-    ctx.ob("C06.R5", "client:APIClient", "connections are created from the client's own parameter object (by reference)", bool(made) and all(c.args and norm(c.args[0]) == "self._params" for f, c in made), f"{[(f.qualname, norm(c.args[0]) if c.args else None) for f, c in made]}")
+    ctx.ob("C06.R5", "client:APIClient", "connections are created from the client's own parameter object (by reference)", bool(made) and all(call_arg(c, 0, "params") is not None and norm(call_arg(c, 0, "params")) == "self._params" for f, c in made), f"{[(f.qualname, norm(call_arg(c, 0, 'params')) if call_arg(c, 0, 'params') is not None else None) for f, c in made]}")
     cw = binders(cli, "_params")
     ctx.ob("C06.R5", cli.methods["__init__"], "the client binds its parameter object once, in __init__ (later configuration changes update it in place)", bool(cw) and all(f.name == "__init__" for f, st, v in cw), f"rebound in {[f.qualname for f, st, v in cw if f.name != '__init__']}: a connection created earlier keeps checking the old object")
     setters = [f for f in ctx.repo.all_funcs() if f.cls is cli and f.name == "expected_name" and any(norm(d).endswith(".setter") for d in f.node.decorator_list)]
